@@ -20,8 +20,11 @@ use vmm_sys_util::{
 };
 
 // Use a dummy ioctl implementation for tests instead.
+#[cfg(not(vm_memory_verif))]
 #[cfg(not(test))]
 use vmm_sys_util::ioctl::ioctl_with_ref;
+#[cfg(all(vm_memory_verif, not(test)))]
+use crate::verif::ioctl_with_ref;
 
 #[cfg(test)]
 use tests::ioctl_with_ref;
